@@ -287,7 +287,6 @@ class NormalizeDense(_Normalize):
         return self._result_common(c) + [
             ("result:coefficients-shape", z3.And(ln(RA, 0) == m, ln(RA, 1) == n)),
             ("result:coefficients-scaled", fa([i, j], z3.Implies(inr, el(RA, i, j) == el(A0, i, j) * scale_at(d, j)), el(RA, i, j))),
-            ("result:coefficients-are-fresh", z3.BoolVal(r._coefficients.ref.id != s0._coefficients.ref.id)),
             ("result:offset-length", ln(Rb) == m),
             # the offset is A0 @ shift + b0 for the vector `shift` of the code (a witness at call sites), which is the spec vector point-wise
             ("shift-vector", fa([k], z3.Implies(z3.And(0 <= k, k < n), sh[k] == shift_at(d, k)), sh[k])),
@@ -295,3 +294,240 @@ class NormalizeDense(_Normalize):
              fa([i], z3.Implies(z3.And(0 <= i, i < m), el(Rb, i) == psum(z3.Lambda([k], el(A0, i, k) * sh[k]), n) + el(b0, i)), el(Rb, i))),
             ("self-kept:coefficients", z3.And(ln(A1, 0) == m, ln(A1, 1) == n, fa([i, j], z3.Implies(inr, el(A1, i, j) == el(A0, i, j)), el(A1, i, j)))),
         ] + self._kept(c)
+
+
+def csr_parts(v):
+    """(CsrObj, data ArrObj, indices ArrObj, indptr ArrObj) of a view on a CSR matrix, in the heap of the view."""
+    o = v.obj
+    h = v._heap
+    return o, h[o.data.id], h[o.indices.id], h[o.indptr.id]
+
+
+def same_vec(a, b, n=None):
+    """Two ArrObj vectors have the same length and elements."""
+    j = z3.Int("j!sv")
+    return z3.And(a.shape[0] == b.shape[0], fa([j], z3.Implies(z3.And(0 <= j, j < a.shape[0]), a.elems[j] == b.elems[j]), a.elems[j]))
+
+
+@register
+class NormalizeSparse(_Normalize):
+    """Sparse coefficients (scipy CSR matrix, abstract model of pyvc/plug_c01.py)."""
+
+    variant = "sparse"
+    self_schema = LIN + "#sparse"
+    params = {"input_space": TObj(DS, schema_key=DS + "#c01")}
+    returns = TObj(LIN, schema_key=LIN + "#sparse")
+    c01_construct = {LIN: LIN + "#sparse"}
+
+    def rows(self, c):
+        return c.old.self._coefficients.obj.shape[0]
+
+    def cols(self, c):
+        return c.old.self._coefficients.obj.shape[1]
+
+    def requires(self, c):
+        M, data, ind, ptr = csr_parts(c.old.self._coefficients)
+        p = z3.Int("p!cw")
+        return self._common_requires(c) + [
+            # class invariant of a CSR matrix: one column index per stored value, within the number of columns
+            ("csr-lengths", z3.And(data.shape[0] == ind.shape[0])),
+            ("csr-column-indices", fa([p], z3.Implies(z3.And(0 <= p, p < ind.shape[0]), z3.And(0 <= ind.elems[p], ind.elems[p] < M.shape[1])), ind.elems[p])),
+        ]
+
+    def ensures(self, c):
+        s0, s1, r = c.old.self, c.new.self, c.result
+        d = ds_view(c.old.input_space)
+        M0, data0, ind0, ptr0 = csr_parts(s0._coefficients)
+        M1, data1, ind1, ptr1 = csr_parts(s1._coefficients)
+        b0, Rb = s0._value_at_zero, r._value_at_zero
+        m, n = self.rows(c), self.cols(c)
+        i, k, p = z3.Int("i!ns"), z3.Int("k!ns"), z3.Int("p!ns")
+        sh = shift_witness(c)
+        out = self._result_common(c)
+        rc = r._coefficients
+        is_csr = isinstance(rc.obj, CsrObj)
+        out.append(("result:coefficients-are-a-csr-matrix", z3.BoolVal(is_csr)))
+        if is_csr:
+            MR, dataR, indR, ptrR = csr_parts(rc)
+            out += [
+                ("result:coefficients-shape", z3.And(MR.shape[0] == m, MR.shape[1] == n)),
+                ("result:same-sparsity-pattern", z3.And(same_vec(indR, ind0), same_vec(ptrR, ptr0))),
+                ("result:stored-values-scaled", z3.And(dataR.shape[0] == data0.shape[0],
+                                                       fa([p], z3.Implies(z3.And(0 <= p, p < data0.shape[0]), dataR.elems[p] == data0.elems[p] * scale_at(d, ind0.elems[p])), dataR.elems[p]))),
+            ]
+        out += [
+            ("result:offset-length", ln(Rb) == m),
+            ("shift-vector", fa([k], z3.Implies(z3.And(0 <= k, k < n), sh[k] == shift_at(d, k)), sh[k])),
+            ("result:offset-from-the-original-coefficients",
+             fa([i], z3.Implies(z3.And(0 <= i, i < m), el(Rb, i) == csr_matvec(ptr0.elems, ind0.elems, data0.elems, sh)[i] + el(b0, i)), el(Rb, i))),
+            ("self-kept:coefficients-arrays", z3.BoolVal((M1.data.id, M1.indices.id, M1.indptr.id) == (M0.data.id, M0.indices.id, M0.indptr.id))),
+            ("self-kept:coefficients-shape", z3.And(M1.shape[0] == m, M1.shape[1] == n)),
+            ("self-kept:stored-values", same_vec(data1, data0)),
+            ("self-kept:sparsity-pattern", z3.And(same_vec(ind1, ind0), same_vec(ptr1, ptr0))),
+        ]
+        return out + self._kept(c)
+
+
+# ============================================================================ Part A: composition of the evaluation sequences
+# EvaluationProblem._preprocess_function builds a ProblemFunction from a function and four flags.  The ProblemFunction constructor is a
+# RECORD MODEL (pyvc/plug_c01.py): the postconditions talk about the arguments it receives.  A callable is identified by what it is:
+# the bound method <name> of <object>, or the (opaque) callable held by the `_func` / `_jac` attribute of the function at entry.
+# Specification from the property statement:
+#     F-seq = F o R? o U?                                  (U iff the caller's coordinates are normalised, R iff integer rounding)
+#     J-seq = normalize_grad? o dense? o J o R? o U?       (normalize_grad iff normalised coordinates, dense iff no sparse support)
+# A linear function in normalised coordinates without rounding may instead be replaced by g = function.normalize(design_space), for which
+# g.func = F o U and g.jac = normalize_grad o J (contract of MDOLinearFunction.normalize above): F-seq = [g.func], J-seq = dense? o g.jac.
+from pyvc import contract as C  # noqa: E402
+
+EP = A + "evaluation_problem.EvaluationProblem"
+PF = A + "problem_function.ProblemFunction"
+CNT = A + "evaluation_counter.EvaluationCounter"
+DB = A + "database.Database"
+OPTS = TDict(TStr, TVal)
+
+schema(MDOF + "#c01", {
+    "name": TStr,
+    "_func": TCallable,
+    "_jac": TCallable,
+    "_MDOFunction__expects_normalized_inputs": TBool,
+})
+schema(EP + "#pp", {
+    "design_space": TObj(DS, schema_key=DS + "#c01"),
+    "database": TObj(DB),
+    "evaluation_counter": TObj(CNT),
+    "_stop_if_nan": TBool,
+    "differentiation_method": TStr,
+    "differentiation_step": TReal,
+    "_EvaluationProblem__parallel_differentiation": TBool,
+    "_EvaluationProblem__parallel_differentiation_options": OPTS,
+    "_functions_are_preprocessed": TBool,
+})
+# the arguments of ProblemFunction.__init__ (+ the attribute `original` set afterwards)
+schema(PF + "#record", {k: TVal for k in (
+    "function", "output_evaluation_sequence", "jacobian_evaluation_sequence", "with_normalized_inputs", "database", "counter", "stop_if_nan",
+    "design_space", "store_jacobian", "differentiation_method", "differentiation_method_options.step", "differentiation_method_options.normalize",
+    "differentiation_method_options.parallel", "differentiation_method_options.**", "original")})
+
+APPROXIMATION_MODES = ("complex_step", "finite_differences", "centered_differences")
+
+
+def same_callable(a, b):
+    if isinstance(a, BoundMethod) and isinstance(b, BoundMethod):
+        ra = a.recv.id if isinstance(a.recv, Ref) else a.recv
+        rb = b.recv.id if isinstance(b.recv, Ref) else b.recv
+        return ra == rb and a.finfo is not None and b.finfo is not None and a.finfo.qualname == b.finfo.qualname
+    if isinstance(a, SV) and isinstance(b, SV):
+        return a.ty == b.ty and a.term.eq(b.term)
+    return False
+
+
+def is_method(v, recv_ref, qualname):
+    if not (isinstance(v, BoundMethod) and v.finfo is not None and v.finfo.qualname == qualname):
+        return False
+    return v.recv is None if recv_ref is None else (isinstance(v.recv, Ref) and v.recv.id == recv_ref.id)
+
+
+def raw(view, field):
+    """The raw (engine-level) value of a field of the object behind a view."""
+    return view.obj.fields[field]
+
+
+def zb(x):
+    return z3.BoolVal(x) if isinstance(x, bool) else x
+
+
+class _Preprocess(Contract):
+    targets = (EP + "._preprocess_function",)
+    prop = ("C01",)
+    self_schema = EP + "#pp"
+    c01 = True
+    c01_records = {PF: PF + "#record"}
+    linear = False
+
+    def flags(self, c):
+        o = c.old
+        return zb(o.is_function_input_normalized), zb(o.use_database), zb(o.round_ints), zb(o.support_sparse_jacobian), zb(o.store_jacobian)
+
+    # -- what the sequences must be, for concrete values of the flags
+    def expected(self, c, norm, rnd, sparse, normalized_function=None):
+        """List of alternatives (F-seq, J-seq); a sequence is a list of matchers (raw value -> bool)."""
+        ds = c.arg("self") and raw(c.old.self, "design_space")
+        fn = c.old.function
+        U = lambda v: is_method(v, ds, DS + ".unnormalize_vect")  # noqa: E731,N806
+        R = lambda v: is_method(v, ds, DS + ".round_vect")  # noqa: E731,N806
+        NG = lambda v: is_method(v, ds, DS + ".normalize_grad")  # noqa: E731,N806
+        dense = lambda v: is_method(v, None, EP + "._convert_array_to_dense")  # noqa: E731
+        F = lambda v: same_callable(v, raw(fn, "_func"))  # noqa: E731,N806
+        J = lambda v: same_callable(v, raw(fn, "_jac"))  # noqa: E731,N806
+        fseq = ([U] if norm else []) + ([R] if rnd else []) + [F]
+        jseq = ([U] if norm else []) + ([R] if rnd else []) + [J] + ([] if sparse else [dense]) + ([NG] if norm else [])
+        alts = [(fseq, jseq, fn.ref)]
+        if self.linear and norm and not rnd and normalized_function is not None:
+            g = normalized_function
+            alts.append(([lambda v: is_method(v, g, LIN + "._func_to_wrap")], [lambda v: is_method(v, g, LIN + "._jac_to_wrap")] + ([] if sparse else [dense]), g))
+        return alts
+
+    @staticmethod
+    def matches(seq, matchers):
+        return isinstance(seq, tuple) and len(seq) == len(matchers) and all(m(v) for m, v in zip(matchers, seq))
+
+    def normalized_function(self, c):
+        """In the linear variant: the record's function when it is a NEW linear function (candidate for g = function.normalize(space))."""
+        return None
+
+    def ensures(self, c):
+        norm, use_db, rnd, sparse, store = self.flags(c)
+        s0 = c.old.self
+        r = c.result
+        rref = c.result_value
+        is_rec = isinstance(rref, Ref) and isinstance(c._new_heap.get(rref.id), PyObj) and c._new_heap[rref.id].cls == PF and rref.id not in c._old_heap
+        out = [("result:is-a-new-problem-function", z3.BoolVal(is_rec))]
+        if not is_rec:
+            return out
+        fseq, jseq, fun = raw(r, "output_evaluation_sequence"), raw(r, "jacobian_evaluation_sequence"), raw(r, "function")
+        g = self.normalized_function(c)
+        for bn in (True, False):
+            for br in (True, False):
+                for bs in (True, False):
+                    cond = z3.And(norm == bn, rnd == br, sparse == bs)
+                    alts = self.expected(c, bn, br, bs, g)
+                    tag = f"{'normalized' if bn else 'physical'},{'rounding' if br else 'no-rounding'},{'sparse' if bs else 'dense'}"
+                    ok_f = any(self.matches(fseq, a[0]) and self.matches(jseq, a[1]) and isinstance(fun, Ref) and fun.id == a[2].id for a in alts)
+                    out.append((f"sequences[{tag}]", z3.Implies(cond, z3.BoolVal(ok_f))))
+        fn0 = c.old.function
+        dm = s0.differentiation_method
+        is_mode = z3.Or(*[dm == str_lit(m) for m in APPROXIMATION_MODES])
+        rdm = raw(r, "differentiation_method")
+        rdb = raw(r, "database")
+        out += [
+            ("with-normalized-inputs", zb(C.View(c._new_heap, raw(r, "with_normalized_inputs"), c.st)._wrap(raw(r, "with_normalized_inputs")))
+             == z3.If(norm, z3.BoolVal(True), fn0._MDOFunction__expects_normalized_inputs)),
+            ("database-iff-used", z3.And(z3.Implies(use_db, z3.BoolVal(isinstance(rdb, Ref) and rdb.id == raw(s0, "database").id)),
+                                         z3.Implies(z3.Not(use_db), z3.BoolVal(rdb is None)))),
+            ("counter", z3.BoolVal(raw(r, "counter") == raw(s0, "evaluation_counter"))),
+            ("design-space", z3.BoolVal(raw(r, "design_space") == raw(s0, "design_space"))),
+            ("stop-if-nan", zb(_term(raw(r, "stop_if_nan"))) == s0._stop_if_nan),
+            ("store-jacobian", zb(_term(raw(r, "store_jacobian"))) == store),
+            ("differentiation-method", z3.And(z3.Implies(is_mode, z3.BoolVal(isinstance(rdm, SV)) if not isinstance(rdm, SV) else rdm.term == dm),
+                                              z3.Implies(z3.Not(is_mode), z3.BoolVal(rdm is None)))),
+            ("differentiation-step", _term(raw(r, "differentiation_method_options.step")) == s0.differentiation_step),
+            ("differentiation-normalize", zb(_term(raw(r, "differentiation_method_options.normalize"))) == norm),
+            ("differentiation-parallel", zb(_term(raw(r, "differentiation_method_options.parallel"))) == s0._EvaluationProblem__parallel_differentiation),
+            ("original-is-the-given-function", z3.BoolVal(raw(r, "original") == c.arg("function"))),
+        ]
+        return out
+
+
+def _term(v):
+    return v.term if isinstance(v, SV) else v
+
+
+PP_PARAMS = {"is_function_input_normalized": TBool, "use_database": TBool, "round_ints": TBool, "support_sparse_jacobian": TBool, "store_jacobian": TBool}
+
+
+@register
+class PreprocessNonLinear(_Preprocess):
+    """Any function that is not an MDOLinearFunction (its `_func` / `_jac` are opaque callables)."""
+
+    variant = "nonlinear"
+    params = dict(PP_PARAMS, function=TObj(MDOF, schema_key=MDOF + "#c01"))
